@@ -587,6 +587,25 @@ func (fr *Frame) recv(x *ssa.UnOp, ch Val, st *State, reach string) Val {
 // this function) are kept so that contracts can count hand-offs; values received are unknown
 // (constrained only by their type).
 func (c *FnCtx) chanSend(fr *Frame, st *State, reach string, cht types.Type, ch string, v Val, pos token.Pos) {
+	if fr.contract != nil {
+		for _, cl := range fr.contract.clauses("sendsite") {
+			env := fr.env(st)
+			env.names["ch"] = Val{T: cht, Term: ch}
+			vv := v
+			if vv.Term == "" {
+				vv.Term = c.termOf(v)
+			}
+			env.names["val"] = vv
+			for _, cj := range conjuncts(cl.Expr) {
+				t, err := env.evalBool(cj)
+				if err != nil {
+					fr.bindFailure(cl, err)
+					continue
+				}
+				fr.oblige("sendsite", "send requires "+cj.String(), reach, t, pos)
+			}
+		}
+	}
 	g := "sent"
 	c.ghostSorts[g] = "(Array Int Int)"
 	cur, ok := st.ghost[g]
@@ -648,7 +667,7 @@ func (fr *Frame) selectStmt(x *ssa.Select, st *State, reach string) Val {
 			// send case: counted when taken
 			v := fr.val(s.Send, st)
 			after := st.clone()
-			c.chanSend(fr, after, reach, s.Chan.Type(), ch, v, x.Pos())
+			c.chanSend(fr, after, and(reach, eq(idx, fmt.Sprint(i))), s.Chan.Type(), ch, v, x.Pos())
 			m := c.mergeStates([]incoming{{eq(idx, fmt.Sprint(i)), after}, {not(eq(idx, fmt.Sprint(i))), st}})
 			*st = *m
 		}
